@@ -53,6 +53,48 @@ func (m *Machine) indexAddr(base []Value, idx *Term, it types.Type) Value {
 
 func (m *Machine) symLoad(sp *SymPtr) Value {
 	n := len(sp.Base)
+	// constant tables with few distinct values: group indices by value
+	if n > 8 {
+		groups := map[*Term][]int{}
+		var order []*Term
+		allConst := true
+		for k, v := range sp.Base {
+			t := v.(*Term)
+			if !t.IsConst() {
+				allConst = false
+				break
+			}
+			if _, ok := groups[t]; !ok {
+				order = append(order, t)
+				if len(order) > 4 {
+					allConst = false
+					break
+				}
+			}
+			groups[t] = append(groups[t], k)
+		}
+		if allConst {
+			// majority value is the default
+			maj := order[0]
+			for _, t := range order {
+				if len(groups[t]) > len(groups[maj]) {
+					maj = t
+				}
+			}
+			res := maj
+			for _, t := range order {
+				if t == maj {
+					continue
+				}
+				c := m.tb.False()
+				for _, k := range groups[t] {
+					c = m.tb.Or(c, m.tb.Eq(sp.Idx, m.tb.Const(64, uint64(k))))
+				}
+				res = m.tb.Ite(c, t, res)
+			}
+			return res
+		}
+	}
 	res := sp.Base[n-1].(*Term)
 	for k := n - 2; k >= 0; k-- {
 		res = m.tb.Ite(m.tb.Eq(sp.Idx, m.tb.Const(64, uint64(k))), sp.Base[k].(*Term), res)
